@@ -1,6 +1,6 @@
 SPECIFICATION Spec
 CONSTANTS
-  Parts = {"names", "horner", "lorentz", "units"}
+  Parts = {"names", "horner", "lorentz", "units", "typed", "reuse"}
   Bug = "none"
   Letters <- MC_Letters3
   MaxPrefixLen = 2
@@ -15,6 +15,8 @@ CONSTANTS
   Scales = {1, 2, 3, 4}
   MaxOffset = 9
   UnitExps <- MC_UnitExps
+  TCoefs <- MC_TCoefs
+  TMaxDeg = 2
 INVARIANT ModelWellFormed
 INVARIANT NamesInjective
 INVARIANT StripRecoversBase
@@ -32,5 +34,10 @@ INVARIANT LorentzSignOfAmplitude
 INVARIANT GaussHalfMaximum
 INVARIANT UnitsImplied
 INVARIANT WrongUnitNoticed
+INVARIANT TypedRefusalNeedsIntegerOperand
+INVARIANT TypedValueIsSum
+INVARIANT TypedNothingNarrowed
+INVARIANT ArgumentsUnchanged
+INVARIANT Repeatable
 PROPERTY RefusalLeavesModel
 CHECK_DEADLOCK FALSE
